@@ -289,3 +289,24 @@ CHECKS["C08"]["text"] = CHECKS["C08"]["text"] + (" Also: TYPE tests the value ag
     "every accepting return of DATE lies past a shape test whose language is exactly dddd-dd-dd (automata, both inclusions) and past a completed fromisoformat/strptime of the value's text, ISO8601 past the completed parse (R08.10); "
     "REGEX compiles the schema's pattern without flags and applies match/fullmatch to str(value), acceptance only where the match held (R08.11).")
 CHECKS["C08"]["note"] = CHECKS["C08"]["note"].replace("REGEX match semantics and anchoring, DATE/ISO8601 calendar validity", "what the re / datetime library calls themselves compute (assumed: CPython semantics)")
+CHECKS["C01"]["text"] = CHECKS["C01"]["text"] + (" Also (second build session): indentation strings are judged as linear arithmetic in the nesting level - constant tables, sums, fallbacks, level aliases, pads used inline - and must have exactly 2*indent (own line) or 2*indent+2 (child line) spaces, every read of the level is accounted for or the run fails closed (R01.4); "
+    "a bare-key Assignment is handed only to a parent whose emitter tests the key for emptiness (R01.8); a document name set outside the parser comes from another document's name, a constant, or a capture of the lexer's envelope-name pattern (R01.9); "
+    "a token regex the automata engine cannot translate is decided on a family of number texts with the stdlib re module instead of being skipped (R01.5).")
+CHECKS["C02"]["text"] = CHECKS["C02"]["text"] + " Also: numbers are spelled by str()/repr() only (R02.11 = R04.10); the indentation arithmetic of R01.4 is checked here too (R02.12): which parent a field belongs to is carried by indentation alone."
+CHECKS["C03"]["text"] = CHECKS["C03"]["text"] + " Also: the INDENT token is built only where the character after the whole run of leading spaces is neither a space nor a newline - counting loop plus newline test, or a ` +` regex whose look-ahead excludes both (R03.11); R03.5 uses the linear indentation arithmetic of R01.4."
+CHECKS["C04"]["text"] = CHECKS["C04"]["text"] + (" Also: numbers are spelled by str()/repr() only - no format spec, %-formatting, round() on the way from a value to its text (R04.10); no dict/tuple/set holding True/False is searched with a key not known to be a bool, since 1 == True (R04.11); "
+    "bool-before-int is ordered by traversal position, not by line number (a helper read in place keeps its own line numbers).")
+CHECKS["C05"]["text"] = CHECKS["C05"]["text"] + " Also: every application of the lexer's FENCE_PATTERN takes a line of the newline-split text unchanged - never a stripped or otherwise rewritten copy (R05.9)."
+CHECKS["C06"]["text"] = CHECKS["C06"]["text"] + " Also: every open()/fdopen()/read_text()/write_text() in the package is binary or names its encoding (R06.8) - three genuine sites were found and repaired (repo commit e65cefb)."
+CHECKS["C07"]["text"] = CHECKS["C07"]["text"] + " Also: the line-counting rule of C02 R02.9 (no str.splitlines in lexer/parser/emitter) is checked here as R07.6, receipts carry line numbers; R07.1b reads `pos = <m>.end()` with `column += <m>.end() - pos`."
+CHECKS["C09"]["text"] = CHECKS["C09"]["text"] + " Also: a frontmatter block the emitter drops (blank) takes, in validate_frontmatter, a path that adds no error of its own and falls through to the per-field checks, or is routed to the absent branch (R09.8)."
+CHECKS["C10"]["text"] = CHECKS["C10"]["text"] + " Also: schema names are never shortened with strip()/rstrip() of a word, which would let an unknown name select an existing schema (R10.10)."
+CHECKS["C12"]["text"] = CHECKS["C12"]["text"] + " Also: every ' | '-joined group is built from a list that is non-empty - guarded, or ENUM values that the schema reader builds with a filter-free comprehension over str.split() (R12.6)."
+CHECKS["C13"]["text"] = CHECKS["C13"]["text"] + " Also: the validator's ENUM accepts an exact member before prefix matching (R13.8 = C08 R08.8); the grammar derives every allowed value verbatim."
+CHECKS["C14"]["text"] = CHECKS["C14"]["text"] + " Also: no lookup by equality/hash in a collection holding True/False with a key not known to be a bool (R14.9); custom YAML representers / Dumper / JSON default hooks used by eject and the CLI do not rewrite strings (R14.10)."
+CHECKS["C15"]["text"] = CHECKS["C15"]["text"] + " Also: numbers are spelled by str()/repr() only, so that two different numbers never share a hashed text (R15.8 = R04.10)."
+CHECKS["C16"]["text"] = CHECKS["C16"]["text"] + " Also: after os.replace has succeeded no error envelope is returned and no statement can raise into a handler that returns one (R16.9 = C17 R17.5); a read-only os.open is a read."
+CHECKS["C17"]["text"] = CHECKS["C17"]["text"] + " Also: reader helpers are summarised - a strict reader of the target is a read, a tolerant one that can hand back a constant is not; R17.5 follows re-raises inside a handler only."
+CHECKS["C18"]["text"] = CHECKS["C18"]["text"] + " Also: absence is never decided by truthiness - any()/all()/filter() over container values in the emitter judge each element with is_absent / isinstance Absent (R18.10)."
+CHECKS["C19"]["text"] = CHECKS["C19"]["text"] + " Also: an extension test made through a helper is summarised as candidates ∩ allowed with candidates ⊆ {last suffix, last two joined} (R19.2); the digest function hashes the file's bytes as read (R19.5); names are not shortened with strip() of a word (R19.9)."
+CHECKS["C20"]["text"] = CHECKS["C20"]["text"] + " Also: no Parser method does whole-list work on self.tokens (R20.6b); receipt records carry no value of unknown kind - an Any parameter, a parse_value() result - unless guarded by isinstance or converted (R20.5e); R20.1 accepts `pos = <m>.end()` after a module-level regex of minimum width >= 1 matched at pos."
